@@ -67,3 +67,45 @@ def register(reg):
         },
         locals_types={"diff_dict": COMP},
         props=["C07", "C08", "C14"])
+    register_both_side(reg)
+
+
+def register_both_side(reg):
+    """BothSideReact.enforce_product_side / reverse_values_if_negative_except_Q (rsmi_both_side_process.py): the signed imbalance of the
+    rows the comparator labels 'Both' (C08: the imbalance the rule matcher is asked to fill; C07)."""
+    FB = "synrbl/SynProcessor/rsmi_both_side_process.py"
+    reg.contract(
+        FB, "BothSideReact.enforce_product_side",
+        params={"react_dict": COMP, "product_dict": COMP}, returns=COMP, fresh_result=True, pure=True,
+        ensures=[
+            # the signed difference reactants - products on every key [C07, C08]
+            "forall(STR, lambda k: get0(result, k) == get0(react_dict, k) - get0(product_dict, k))",
+            "forall(STR, lambda k: implies(k in result, k in react_dict or k in product_dict))",
+            "forall(STR, lambda k: implies(k in react_dict and k in result, result[k] != 0))",
+        ],
+        loops={
+            0: {"inv": [
+                "forall(STR, lambda k: implies(done(k), get0(diff_dict, k) == react_dict[k] - get0(product_dict, k) and (k in diff_dict) == (get0(diff_dict, k) != 0)))",
+                "forall(STR, lambda k: implies(not done(k), not (k in diff_dict)))",
+            ]},
+            1: {"inv": [
+                "forall(STR, lambda k: implies(k in react_dict, get0(diff_dict, k) == react_dict[k] - get0(product_dict, k) and (k in diff_dict) == (get0(diff_dict, k) != 0)))",
+                "forall(STR, lambda k: implies(not (k in react_dict) and done(k), k in diff_dict and diff_dict[k] == 0 - product_dict[k]))",
+                "forall(STR, lambda k: implies(not (k in react_dict) and not done(k), not (k in diff_dict)))",
+            ]},
+        },
+        locals_types={"diff_dict": COMP},
+        props=["C07", "C08"])
+    reg.contract(
+        FB, "BothSideReact.reverse_values_if_negative_except_Q",
+        params={"diff_dict": COMP}, returns=Tuple(COMP, STR),
+        ensures=[
+            "result[1] == 'Reactants' or result[1] == 'Products' or result[1] == 'Both'",
+            # a one-element imbalance (plus the charge entry) is turned to the side that lacks it; nothing else is touched
+            "implies(result[1] == 'Products', result[0] is diff_dict and forall(STR, lambda k: implies(k in diff_dict and k != 'Q', diff_dict[k] >= 0)))",
+            "implies(result[1] == 'Reactants', fresh(result[0]) and forall(STR, lambda k: (k in result[0]) == (k in diff_dict) and get0(result[0], k) == 0 - get0(diff_dict, k)))",
+            "implies(result[1] == 'Both', result[0] is diff_dict)",
+            "implies(result[1] != 'Both', 'Q' in diff_dict)",
+        ],
+        modifies=[],
+        props=["C08"])
